@@ -364,7 +364,7 @@ func init() {
 
 	// the moving average is an exported field of interface type trend.Ma: replacing it is how anything but an SMA is used
 	RegStrat(&Strat{
-		Name: "trend.WeightedCloseStrategy (Ma replaced)",
+		Name: "trend.WeightedCloseStrategy (Ma replaced)", Periods: []int{0, 2},
 		// cfg = [period given to the constructor, kind of the moving average assigned afterwards, its period]
 		Cfgs: func(t bool) [][]float64 {
 			var r [][]float64
@@ -421,7 +421,7 @@ func init() {
 
 	// ---------------------------------------------------------------- momentum.StochasticRsiStrategy
 	RegStrat(&Strat{
-		Name: "momentum.StochasticRsiStrategy",
+		Name: "momentum.StochasticRsiStrategy", Periods: []int{0},
 		// cfg = [period, buyAt, sellAt]
 		Cfgs: func(t bool) [][]float64 {
 			var r [][]float64
@@ -469,7 +469,7 @@ func init() {
 		return IndRef("momentum.Rsi", c[:1], b.C)[0], IndRef("trend.Sma", c[1:2], b.C)[0]
 	}
 	RegStrat(&Strat{
-		Name: "momentum.TripleRsiStrategy",
+		Name: "momentum.TripleRsiStrategy", Periods: []int{0, 1, 2},
 		Cfgs: func(t bool) [][]float64 {
 			var r [][]float64
 			h := Hi(t, 3, 4)
